@@ -13,11 +13,13 @@ func init() {
 			"(C07-c) representative peers are deleted only in removeRepresentativePeersMatchingLabels and only under the full documented condition (no matchExpressions in either selector, non-empty selectors, both matching); " +
 			"(C07-d) the suppression test reaches PortSet.ContainedIn, which consults named ports of both sides; " +
 			"(C07-e) SelectorsFullMatch answers false only after the empty-rule-selector row is ruled out. " +
+			"(C07-f) the stored per-policy exposure sets, from which every selected workload's exposure is derived, are modified only by their owner functions and only ever hold fresh sets (a query for one workload that rewrites a policy's stored set loses the other workloads' entries). " +
 			"NOT decided: SelectorsFullMatch semantics in general; coverage for arbitrary hypothetical pods."
 		rules.RulePeerClassification(p, r, "C07-a")
 		rules.RepresentativeKey(p, r, "C07-b")
 		rules.RepresentativeDeletion(p, r, "C07-c")
 		rules.ContainmentSeesNamedPorts(p, r, "C07-d")
 		rules.SelectorsFullMatchTable(p, r, "C07-e")
+		rules.SharedSets(p, r, "C07-f")
 	})
 }
